@@ -19,7 +19,10 @@ fn arg(args: &[String], name: &str) -> Option<String> {
 
 fn load_known(path: Option<String>, prop: &str) -> Vec<String> {
     let Some(p) = path else { return vec![] };
-    let Ok(text) = std::fs::read_to_string(&p) else { return vec![] };
+    let Ok(text) = std::fs::read_to_string(&p) else {
+        eprintln!("HARNESS: cannot read the known-findings file {}", p);
+        std::process::exit(2);
+    };
     let mut out = Vec::new();
     for line in text.lines() {
         let line = line.trim();
@@ -139,6 +142,7 @@ fn cmd_run(args: &[String]) -> i32 {
     let known = load_known(arg(args, "--known"), &prop_s);
     let hashes_file = arg(args, "--hashes");
     if let Some(d) = arg(args, "--progress-dir") {
+        std::fs::remove_dir_all(&d).ok(); // no stale marks from an earlier run
         std::fs::create_dir_all(&d).ok();
         let _ = PROGRESS_DIR.set(d);
     }
